@@ -318,8 +318,8 @@ func expectedDetails(spec *model.SpecOut, markers map[string]bool) []detail {
 			if o.Msg != "" {
 				x.msg = o.Msg
 			}
-			if o.MsgFunc != "" {
-				x.msg = o.MsgFunc
+			if o.MsgFunc != "" && !(o.Msg != "" && o.MsgLast) {
+				x.msg = o.MsgFunc // of Message and MessageFunc the one passed later decides
 			}
 			if o.HasParams {
 				m := map[string]any{}
@@ -469,7 +469,7 @@ func genC17(rt *rapid.T, mode string) c17Case {
 			}
 		}
 		if o.Msg != "" && o.MsgFunc != "" {
-			o.MsgFunc = "" // one IssueFmtFunc slot: the later option would win; keep cases unambiguous
+			o.MsgLast = rapid.Bool().Draw(rt, "msglast") // both given: the one passed later decides
 		}
 		return o
 	}
